@@ -20,7 +20,7 @@ RULE = (
 DECIDING = ["models_built", "assignments_evaluated", "formats_checked", "decode_samples_checked"]
 ASSUMPTIONS = ["pyqubo is not installed: the observation point of the property (the expression tree handed to the modelling library) is served by a stand-in module on the workers' sys.path "
                "with pyqubo's documented semantics for Binary/Not/And/Or/Xor/*Const/+/compile; what pyqubo does when producing ising/qubo dictionaries is outside the claim"]
-CASE_TIMEOUT = {"quick": 40, "thorough": 120}
+CASE_TIMEOUT = {"quick": 20, "thorough": 120}
 
 
 def setup():
